@@ -7,6 +7,7 @@ import (
 	"log"
 	"math"
 	"os"
+	"path/filepath"
 	"strconv"
 	"strings"
 	"testing"
@@ -496,8 +497,8 @@ func (rd *reading) logLk(entries []pairEntry, t float64) float64 {
 	return lnl
 }
 
-// minProb: the smallest P_ab(t) over the observed residue pairs
-func (rd *reading) minProb(entries []pairEntry, t float64) float64 {
+// noise: bound of the rounding error of logLk(entries, t): sum F_ab 1e-13 / P_ab(t)
+func (rd *reading) noise(entries []pairEntry, t float64) float64 {
 	if t < blMin {
 		t = blMin
 	}
@@ -512,15 +513,15 @@ func (rd *reading) minProb(entries []pairEntry, t float64) float64 {
 			e[k] = math.Exp(rd.val[k] * t)
 		}
 	}
-	mn := 1.0
+	n := 0.0
 	for _, en := range entries {
 		p := 0.0
 		for k := 0; k < 20; k++ {
 			p += rd.r[en.a][k] * e[k] * rd.l[k][en.b]
 		}
-		mn = math.Min(mn, p)
+		n += en.f * 1e-13 / math.Max(p, 1e-300)
 	}
-	return mn
+	return n
 }
 
 var grid = func() []float64 {
@@ -543,20 +544,25 @@ var grid = func() []float64 {
 //     between the two the likelihood falls below the one of d (a valley).
 func (rd *reading) maximal(entries []pairEntry, d float64) (err error, curved bool) {
 	// conditioning: a transition probability assembled from an eigen system in double precision carries
-	// an absolute error of about 1e-14; when an observed residue pair has P_ab(d) < 1e-6 (zero
-	// exchangeability and every two-step path through amino acids of negligible frequency) the
-	// likelihood is not known to 1e-7 by anybody: the pair is not judged (counted ill_conditioned)
-	if rd.ill || rd.minProb(entries, d) < 1e-6 {
+	// an absolute error of about 1e-14 (1e-13 is assumed), i.e. lnL(t) is known to noise(t) = sum F_ab
+	// 1e-13 / P_ab(t) only. A candidate distance counts as better only beyond lkTol plus the noise of both
+	// likelihoods; when the noise at d itself exceeds lkTol (an observed residue pair with a P_ab(d) of
+	// 1e-6 and less: zero exchangeability and intermediates of negligible frequency, or a reported
+	// distance of 1e-8 for a pair with substitutions) the pair cannot be certified and is counted
+	// ill_conditioned, but a candidate that is better beyond the noise is still a violation.
+	if rd.ill {
 		return nil, false
 	}
 	ld := rd.logLk(entries, d)
 	if math.IsNaN(ld) {
 		return fmt.Errorf("likelihood undefined at the reported distance"), false
 	}
+	nd := rd.noise(entries, d)
+	better := func(lt, t float64) bool { return lt > ld+lkTol+nd+rd.noise(entries, t) }
 	curved = true
 	for _, f := range []float64{1 - 1e-3, 1 + 1e-3, 1 - 1e-2, 1 + 1e-2} {
 		lt := rd.logLk(entries, d*f)
-		if lt > ld+lkTol && err == nil {
+		if better(lt, d*f) && err == nil {
 			err = fmt.Errorf("lnL(%.10g) = %.10f but the nearby distance %.10g has lnL = %.10f", d, ld, d*f, lt)
 		}
 		// the position of the maximum is known to about sqrt(2 noise / |lnL''|), noise about 1e-14:
@@ -564,6 +570,9 @@ func (rd *reading) maximal(entries []pairEntry, d float64) (err error, curved bo
 		if (f == 1-1e-2 || f == 1+1e-2) && !(ld-lt > 1e-8*math.Max(1, d*d)) {
 			curved = false
 		}
+	}
+	if nd > lkTol {
+		curved = false
 	}
 	if err != nil {
 		const n = 400
@@ -583,7 +592,7 @@ func (rd *reading) maximal(entries []pairEntry, d float64) (err error, curved bo
 	best := -1
 	for k, t := range grid {
 		lg[k] = rd.logLk(entries, t)
-		if lg[k] > ld+lkTol && (best < 0 || lg[k] > lg[best]) {
+		if better(lg[k], t) && (best < 0 || lg[k] > lg[best]) {
 			best = k
 		}
 	}
@@ -691,19 +700,47 @@ func judge(a gen.Ali, cfg config, weights []float64, d [][]float64, o *pbt.Outco
 			o.Class("pair: %s", band(dij))
 			if dij >= distMax {
 				v.flat[i][j], v.flat[j][i] = 2, 2
-				// at the saturation cap: the statement does not constrain it further. Observation only
-				// (never a violation): does the likelihood peak below the cap?
-				if total > 0 {
-					low, high := math.Inf(-1), strict.logLk(entries, distMax)
+				// at the saturation cap: the reported value is the maximiser cut down to 20, so for a pair
+				// with comparable sites the likelihood must not peak below the cap: no grid distance
+				// below 20 may beat the likelihood at 20 and beyond (tolerance and rounding noise as for
+				// the other pairs). A pair without comparable selected site has no likelihood to speak
+				// of and is at 20 since a2d9778.
+				if total > 0 && !strict.ill {
+					lowT, low, high := 0.0, math.Inf(-1), strict.logLk(entries, distMax)
+					nhigh := strict.noise(entries, distMax)
 					for _, t := range grid {
-						if lt := strict.logLk(entries, t); t < distMax/2 {
-							low = math.Max(low, lt)
-						} else if t > distMax {
+						if lt := strict.logLk(entries, t); t < distMax {
+							if lt > low {
+								low, lowT = lt, t
+							}
+						} else {
 							high = math.Max(high, lt)
 						}
 					}
-					if low > high+1e-4 {
-						o.Class("pair: capped although the likelihood peaks below 10 (not constrained by the statement)")
+					if low > high+lkTol+nhigh+strict.noise(entries, lowT) {
+						// under the other reading of gap-site removal too?
+						alsoLoose := true
+						for _, rd := range readings[1:] {
+							en, tot := pairFreq(x, y, w, rd.sel)
+							if tot == 0 || rd.ill {
+								alsoLoose = false
+								continue
+							}
+							l2, h2 := math.Inf(-1), rd.logLk(en, distMax)
+							for _, t := range grid {
+								if lt := rd.logLk(en, t); t < distMax {
+									l2 = math.Max(l2, lt)
+								} else {
+									h2 = math.Max(h2, lt)
+								}
+							}
+							if !(l2 > h2+lkTol+rd.noise(en, distMax)+rd.noise(en, lowT)) {
+								alsoLoose = false
+							}
+						}
+						if alsoLoose {
+							return v, fmt.Errorf("d[%d][%d] is at the saturation cap %g although the likelihood of the pair (%s %s, comparable selected weight %g) peaks below it: lnL(%.6g) = %.10f, lnL at 20 and beyond <= %.10f", i, j, distMax, x, y, total, lowT, low, high)
+						}
 					}
 				}
 				continue
@@ -1346,6 +1383,110 @@ func TestCLI(t *testing.T) {
 			o.Class("average")
 		}
 		o.Class("alignments in the file: %d phylip=%v", len(c.Alis), c.Phylip)
+		classes(&o, c.Cfg, false)
+		return o, nil
+	})
+}
+
+// ---- build distboot with a protein model -------------------------------------------------------------------
+//
+// `goalign build distboot -m <protein model>` computes the same maximum-likelihood matrices on bootstrap
+// replicates of the input. The replicates themselves are obtained from `goalign build seqboot` with the same
+// seed, -n and -f (the equivalence C11 checks); every matrix distboot prints is read by the independent
+// reader and judged by the oracle on the corresponding replicate, and there must be one matrix per replicate.
+
+type distbootCase struct {
+	Ali     gen.Ali `json:"ali"`
+	Cfg     config  `json:"cfg"`
+	N       int     `json:"n"`
+	Seed    int64   `json:"seed"`
+	Frac    string  `json:"frac"` // "" = full bootstrap
+	Threads int     `json:"threads"`
+}
+
+func TestDistboot(t *testing.T) {
+	if cli.Binary() == "" {
+		t.Skip("no goalign binary")
+	}
+	pbt.Run(t, func(t *rapid.T) distbootCase {
+		var c distbootCase
+		c.Ali = genAli(t, 2, 5)
+		c.Cfg = genConfig(t, true)
+		if !c.Cfg.Gamma {
+			c.Cfg.Alpha = 0
+		}
+		c.N = rapid.IntRange(1, 4).Draw(t, "n")
+		c.Seed = rapid.Int64Range(0, 1<<40).Draw(t, "seed")
+		c.Frac = rapid.SampledFrom([]string{"", "", "0.5", "0.9"}).Draw(t, "frac")
+		c.Threads = rapid.SampledFrom([]int{1, 2, 4}).Draw(t, "threads")
+		return c
+	}, func(c distbootCase) (o pbt.Outcome, err error) {
+		if !domainOK(c.Ali, c.Cfg, nil) || !c.Cfg.ModelFreqs || c.N < 1 || c.N > 20 || c.Seed < 0 {
+			o.Skip = true
+			return o, nil
+		}
+		dir := cli.TempDir("c17distboot")
+		defer os.RemoveAll(dir)
+		in := cli.TempFile(dir, ".fa", cli.Fasta(c.Ali.Rows))
+		common := []string{"-i", in, "-n", strconv.Itoa(c.N), "--seed", strconv.FormatInt(c.Seed, 10), "--alphabet", "aa"}
+		if c.Frac != "" {
+			common = append(common, "-f", c.Frac)
+		}
+		sb := cli.RunIn(dir, "", append([]string{"build", "seqboot", "-o", "boot"}, common...)...)
+		if sb.Exit != 0 {
+			return o, fmt.Errorf("goalign build seqboot %v: exit %d, stderr %q", common, sb.Exit, sb.Stderr)
+		}
+		args := append([]string{"build", "distboot", "-m", c.Cfg.Model, "-t", strconv.Itoa(c.Threads)}, common...)
+		if c.Cfg.RmGaps {
+			args = append(args, "-r")
+		}
+		if c.Cfg.Gamma {
+			args = append(args, "--alpha", strconv.FormatFloat(c.Cfg.Alpha, 'g', -1, 64))
+		}
+		r := cli.Run("", args...)
+		if r.Exit != 0 {
+			return o, fmt.Errorf("goalign %v: exit %d on a valid protein alignment, stderr %q", args, r.Exit, r.Stderr)
+		}
+		names, ds, perr := parseMatrices(r.Stdout)
+		if perr != nil {
+			return o, fmt.Errorf("goalign %v: unreadable output: %v\n%s", args, perr, r.Stdout)
+		}
+		if len(ds) != c.N {
+			return o, fmt.Errorf("goalign %v: %d matrices for %d replicates", args, len(ds), c.N)
+		}
+		for k := 0; k < c.N; k++ {
+			b, e := os.ReadFile(filepath.Join(dir, fmt.Sprintf("boot%d.fa", k)))
+			if e != nil {
+				return o, fmt.Errorf("goalign build seqboot %v: replicate %d not written: %v", common, k, e)
+			}
+			rows, e := cli.ParseFasta(string(b))
+			if e != nil || len(rows) != len(c.Ali.Rows) {
+				return o, fmt.Errorf("goalign build seqboot %v: replicate %d unreadable (%v, %d rows)", common, k, e, len(rows))
+			}
+			rep := gen.Ali{Alphabet: "aa", Rows: rows}
+			if rep.Length() == 0 {
+				// a partial bootstrap (-f) of a very short alignment has no column: outside the quantifier
+				o.Skip = true
+				return o, nil
+			}
+			if !domainOK(rep, c.Cfg, nil) {
+				return o, fmt.Errorf("goalign build seqboot %v: replicate %d is not a resampling of the input: %s", common, k, gen.Show(rows))
+			}
+			if len(names[k]) != len(rows) {
+				return o, fmt.Errorf("goalign %v: matrix %d has %d rows for %d sequences", args, k+1, len(names[k]), len(rows))
+			}
+			for i, nm := range names[k] {
+				if nm != rows[i].Name {
+					return o, fmt.Errorf("goalign %v: matrix %d, row %d is named %q, want %q", args, k+1, i, nm, rows[i].Name)
+				}
+			}
+			v, e := judge(rep, c.Cfg, nil, ds[k], &o)
+			if e != nil {
+				return o, fmt.Errorf("goalign %v: matrix %d of %d, for the replicate %s (goalign build seqboot, same seed): %v", args, k+1, c.N, gen.Show(rows), e)
+			}
+			o.NonTrivial = o.NonTrivial || v.nonTrivial
+		}
+		o.Class("replicates=%d frac=%q", c.N, c.Frac)
 		classes(&o, c.Cfg, false)
 		return o, nil
 	})
